@@ -178,6 +178,28 @@ def step_checks(agg, obj, depth, out):
                 if r is None:
                     continue
                 ok(f"table.{meth}.{lab}", dict(case, shape=lab), want, vnames(r))
+    # histories: aggregate / window, rename a value column in place, aggregate / window again (names follow the CURRENT stored name)
+    if len(N) >= 2:
+        for how in ("rename_column", "rename_columns", "view"):
+            for meth in ("aggregate", "window"):
+                try:
+                    t2 = Table([Vector(list(c._underlying), name=c._name) for c in t._underlying])
+                    getattr(t2, meth)(over=t2._underlying[0], sum_over=t2._underlying[1])
+                    new_name = "Net Cost"
+                    if how == "view":
+                        t2._underlying[1].name = new_name
+                    elif not isinstance(N[1], str) or N.index(N[1]) != 1:
+                        continue
+                    elif how == "rename_column":
+                        t2.rename_column(N[1], new_name)
+                    else:
+                        t2.rename_columns([N[1]], [new_name])
+                    r = getattr(t2, meth)(over=t2._underlying[0], sum_over=t2._underlying[1], mean_over=t2._underlying[1])
+                except Exception:
+                    agg.skipped["operation-raises"] += 1
+                    continue
+                ok(f"table.{meth}.after-{how}", dict(case, history=[meth, how, meth]),
+                   agg_expected([N[0]], [("sum", new_name), ("mean", new_name)], []), vnames(r))
     # external unnamed key / value vectors
     ek = Vector(list(range(nrows)))
     ev = Vector(list(range(nrows)))
